@@ -445,7 +445,7 @@ def s_set_content(vc):
     raw = msg.data.content
     post = hfields(vc, msg)
     enc_calls = [c for c in log if c[0] == "encode"]
-    vc.ensure("encoded_once_with_the_declared_coding_or_identity", And(len(enc_calls) == 1, vc.eq(enc_calls[0][1], value), vc.eq(enc_calls[0][2], ce_s if has_ce else "identity")))
+    vc.ensure("encoded_once_with_the_declared_coding_or_identity", And(len(enc_calls) == 1, vc.eq(enc_calls[0][1], value), vc.eq(enc_calls[0][2], ce_s if has_ce else "identity")) if enc_calls else False)
     names = [_conc(f[0]) for f in post]
     failed = has_ce and b"Content-Encoding" not in names
     if has_ce:
@@ -627,8 +627,12 @@ def bounded(tier, seed):
                         b.fail("message.set_content.text_codec_name_type_error" if c.lower() == "utf-8" else "message.set_content.total", inp, repr(e))
                         continue
                     known = c.lower() in ("gzip", "deflate", "br", "zstd", "identity")
-                    if m.content != body:
-                        b.fail("message.content_round_trip", inp, f"{m.content!r:.60}")
+                    try:
+                        back = m.content
+                    except ValueError as e:
+                        back = repr(e)
+                    if back != body:
+                        b.fail("message.content_round_trip", inp, f"{back!r:.80}")
                     if known != ("content-encoding" in m.headers):
                         b.fail("message.invalid_coding_header_removed", inp, str(m.headers))
                     if te:
@@ -643,8 +647,7 @@ def bounded(tier, seed):
                         except Exception as e:
                             rb = repr(e)
                         if rb != body:
-                            empty_hit = body == b"" and m.raw_content == b""
-                            b.fail("encoding.encode.empty_body_cache_hit" if empty_hit else "message.raw_body_decodes_with_independent_decoder", inp, f"{m.raw_content!r:.40} -> {rb!r:.80}")
+                            b.fail("message.raw_body_decodes_with_independent_decoder", inp, f"{m.raw_content!r:.40} -> {rb!r:.80}")
                     if known:
                         m.decode()
                         if m.content != body or (body and "content-encoding" in m.headers):
@@ -652,6 +655,15 @@ def bounded(tier, seed):
                         m.encode(fam)
                         if m.content != body:
                             b.fail("message.reencode_preserves_content", inp, f"{m.content!r:.40}")
+                        if fam in ref:
+                            try:
+                                rb = ref[fam](m.raw_content)
+                            except Exception as e:
+                                rb = repr(e)
+                            if rb != body:
+                                b.fail("message.reencoded_raw_body_decodes_with_independent_decoder", inp, f"{m.raw_content!r:.40} -> {rb!r:.80}")
+                            if m.headers.get("content-length") != str(len(m.raw_content)) and not te:
+                                b.fail("message.content_length_is_raw_length_after_reencode", inp, f"{m.headers.get('content-length')} vs {len(m.raw_content)}")
     return b
 
 
